@@ -339,18 +339,38 @@ def _gen_case(rng, stream, style):
                 v["name"] = "c_%s.%s" % (v["name"], v["name"])
         vars_.append(v)
     if stream == "array-expr":
-        # an array literal whose elements are parameter expressions or bare references (former findings C13-F1 / C13-F2)
+        # array literals whose elements are parameter expressions, bare references or numbers (former findings
+        # C13-F1 / C13-F2), 1-D and 2-D: a matrix literal must come out in the symbol's column-major order
         sc = [i for i, p in enumerate(pars) if p["type"] == "Real" and not p["dims"]]
-        bare = rng.random() < 0.5
-        n = rng.choice([2, 3])
-        elems = []
-        for k in range(n):
+
+        def elem(force_par=False, bare_ok=True):
+            r = rng.random()
+            if r < 0.3 and not force_par:
+                v = dy(rng, -4, 4)
+                return {"op": "num", "v": xj(v), "int": v.denominator == 1 and rng.random() < 0.5}
             e = {"op": "par", "i": rng.choice(sc), "el": None}
-            if not (bare and k == 0):
-                e = {"op": "mul", "a": {"op": "num", "v": xj(rng.choice([2, 3, -1])), "int": True}, "b": e}
-            elems.append(e)
-        vars_.append({"name": "x%d" % (nv + 1), "kind": "alg", "type": "Real", "dims": [n],
-                      "attrs": {rng.choice(["min", "max", "start", "nominal"]): {"k": "arrexpr", "elems": elems, "bare": bare}}})
+            if r < 0.5 and bare_ok:
+                return e
+            e = {"op": "mul", "a": {"op": "num", "v": xj(rng.choice([3, -1, Fraction(1, 2), 4])), "int": False}, "b": e}
+            if rng.random() < 0.4:
+                e = {"op": "add", "a": e, "b": {"op": "num", "v": xj(dy(rng, -3, 3)), "int": False}}
+            return e
+
+        for j in range(rng.choice([1, 2])):
+            two_d = rng.random() < 0.6
+            dims = [rng.choice([2, 3]), rng.choice([2, 3])] if two_d else [rng.choice([2, 3])]
+            attrs = {}
+            for a in rng.sample(["min", "max", "start", "nominal"], rng.choice([1, 2])):
+                if two_d:
+                    rows = [[elem() for _ in range(dims[1])] for _ in range(dims[0])]
+                    rows[rng.randrange(dims[0])][rng.randrange(dims[1])] = elem(force_par=True)
+                    attrs[a] = {"k": "arrexpr", "rows": rows, "bare": any(e["op"] == "par" for r in rows for e in r)}
+                else:
+                    elems = [elem() for _ in range(dims[0])]
+                    elems[rng.randrange(dims[0])] = elem(force_par=True)
+                    attrs[a] = {"k": "arrexpr", "elems": elems, "bare": any(e["op"] == "par" for e in elems)}
+            kind = rng.choice(["alg", "alg", "state", "input"])
+            vars_.append({"name": "x%d" % (nv + 1 + j), "kind": kind, "type": "Real", "dims": dims, "attrs": attrs})
     allv = pars + vars_
     order = list(range(len(vars_)))
     rng.shuffle(order)
@@ -422,6 +442,8 @@ def decl_text(d, dims, pars):
             return "{" + ", ".join(lit_text(r[0]) for r in d["rows"]) + "}"
         return "{" + ", ".join("{" + ", ".join(lit_text(x) for x in r) + "}" for r in d["rows"]) + "}"
     if k == "arrexpr":
+        if "rows" in d:
+            return "{" + ", ".join("{" + ", ".join(expr_text(e, pars) for e in r) + "}" for r in d["rows"]) + "}"
         return "{" + ", ".join(expr_text(e, pars) for e in d["elems"]) + "}"
     if k == "notlit":
         return "not true" if d["v"] else "not false"
@@ -557,7 +579,11 @@ def declared(v, a, pars, off, pv):
     elif d["k"] == "expr":
         xs = ev(d["e"], pars, off, pv)
     elif d["k"] == "arrexpr":
-        xs = [ev(e, pars, off, pv)[0] for e in d["elems"]]
+        if "rows" in d:
+            rows = d["rows"]
+            xs = [ev(rows[i][j], pars, off, pv)[0] for j in range(len(rows[0])) for i in range(len(rows))]
+        else:
+            xs = [ev(e, pars, off, pv)[0] for e in d["elems"]]
     elif d["k"] == "dm":
         xs = [jx(d["v"])] * n
     else:
